@@ -24,7 +24,8 @@ from common import rq, unrq, enc_list, dec_list
 
 REQUIRED = ['ice_eq_npgformula', 'plan_rowwise_eq_single', 'ice_rowwise_eq_npgformula', 'npg_textbook_form',
             'plan_shape', 'ice_single_t_eq_timefixed',
-            'survival_product_limit', 'cuminc_monotone_bounded']
+            'survival_product_limit', 'cuminc_monotone_bounded',
+            'survgf_fit_generated', 'survgf_fit_generated_custom', 'ice_step_generated']
 RULE = ('wide data: K in 1..3 time points, covariate arity 2 (3 for K<=2 in some sets), every history cell seeded so '
         'that the saturated designs have full rank, survival-type outcomes (missing after the first event; optionally '
         'treatments/covariates missing there too), four index styles; every static plan in {0,1}^K given as one row and '
@@ -233,6 +234,14 @@ def reference_run(chk, drv, df, K, nlev, models, plan, saturated):
     rep, line = drv.ask('ice_fit', nexp=K, nout=K, spec=1, **wa, **pa, **mu_args(tab, nlev))
     if rep['status'] != 'ok':
         return ('err', rep, hdev)
+    # ---- K: the statements regenerated from the text of IterativeCondGFormula.fit (Gen.ice_pseudo / ice_pred /
+    # ice_marginal), run by the driver's own loop on the same inputs, return the model's value exactly (both are exact
+    # rationals); the model's value is compared with the implementation by the caller
+    rep2, _ = drv.ask('ice_fit_gen', **wa, **pa, **mu_args(tab, nlev))
+    okg = rep2['status'] == 'ok' and rep2.get('value') == rep['value']
+    chk.k(okg, 'IterativeCondGFormula.fit: generated loop statements vs model (exact)',
+          None if okg else {'kind': 'ice_gen', 'frame': frame_record(df), 'K': K, 'plan': list(plan),
+                            'model': rep.get('value'), 'generated': {k: rep2.get(k) for k in ('status', 'err', 'value')}})
     return ('ok', unrq(rep['value']), hdev)
 
 
@@ -678,6 +687,22 @@ def check_long(chk, drv, rng, df, model, saturated, tag):
                     tm == [int(x) for x in marg.index] and bool(np.all(np.abs(np.array(mg) - marg.values) <= TOL))
             chk.k(ok, 'SurvivalGFormula.fit(%s) predicted_df / marginal_outcome model vs impl' % plan,
                   None if ok else mk({'model_reply': {k: rep[k] for k in rep if k in ('status', 'err', 'times', 'marg')}}))
+        # ---- K: the definition regenerated from the text of SurvivalGFormula.fit (Gen.survgf_fit), run on the prepared
+        # table (complete records sorted by id, time) with the reference hazards, vs predicted_df and marginal_outcome
+        if href is not None:
+            cs = cc.sort_values(['id', 't'], kind='stable')
+            pos = cs.index.values
+            rep, line = drv.ask('sgf_gen', treatment=('custom' if plan == 'custom' else treat),
+                                **long_args(dfr.loc[pos], cond[pos], href[0][pos], href[1][pos]))
+            ok = rep['status'] == 'ok'
+            if ok:
+                ci = [float(unrq(x)) for x in dec_list(rep['ci'], str)]
+                tm = dec_list(rep['times'], int)
+                mg = [float(unrq(x)) for x in dec_list(rep['marg'], str)]
+                ok = len(ci) == len(v) and bool(np.all(np.abs(np.array(ci) - v) <= TOL)) and \
+                    tm == [int(x) for x in marg.index] and bool(np.all(np.abs(np.array(mg) - marg.values) <= TOL))
+            chk.k(ok, 'SurvivalGFormula.fit(%s): generated code (Gen.survgf_fit) vs impl' % plan,
+                  None if ok else mk({'generated_reply': {k: rep[k] for k in rep if k in ('status', 'err', 'times', 'marg')}}))
         # ---- D: saturated in arm x time, no covariates: marginal curve == product-limit of that arm from counts
         if saturated and plan in ('all', 'none'):
             rep, line = drv.ask('sgf_pl', arm=1 if plan == 'all' else 0, **long_args(df, cond))
